@@ -32,6 +32,9 @@ CHECKS = {
     "C16": dict(level="other", engine="fwsym", technique="symbolic execution of the emitted buzzer code (IR) with symbolic arguments; tone-protocol claims decided per path by SMT; melodies compared with the score table",
                 text="bounded symbolic specification check of every buzzer call kind over run-time and literal arguments (incl. zero/negative), and of all seven melodies against the score table",
                 note="host Buzzer is a placeholder, so the oracle is the property text; the melody table in the emitter is the definition of the tunes"),
+    "C17": dict(level="other", engine="fwsym+pysym", technique="symbolic execution of the emitted LCD helper calls (IR, mock display records every put) vs the real host LCD (pysym); cell matrices compared per path; progress arithmetic decided by SMT against an integer reference",
+                text="bounded differential of LCD cell matrices (run-time column/row, enumerated geometry/length/alignment/clear) plus solver-decided progress-bar arithmetic on device and host and backlight/glyph traces",
+                note="texts are literals; geometries enumerated (see evidence bounds); host block glyph = device 0xFF"),
     "C19": dict(level="other", engine="pysym", technique="symbolic execution of the real Python (z3 proxies) + SMT (QF_BV/QF_FP), inductive step",
                 text="bounded symbolic inductive step per class: object state symbolic under the representation invariant, one real method call with symbolic arguments, postconditions decided by z3/cvc5 on every feasible path; obligations the solvers do not decide are reported inconclusive",
                 note="trusted: z3/cvc5, proxy semantics (validated by stock-CPython replay of every counterexample), stated representation invariants; ints |v|<=2^31, finite doubles"),
